@@ -9,7 +9,13 @@ import tempfile
 
 import common as C
 
-COQ_FILES = ("L5_Stores/Dbfs.v", "L5_Stores/DbfsProofs.v", "Properties/C19.v")
+COQ_FILES = ("L5_Stores/Dbfs.v", "L5_Stores/DbfsProofs.v", "L5_Stores/DbfsHist.v", "L5_Stores/DbfsHistProofs.v", "Properties/C19.v", "Properties/C19b.v")
+PROPERTY_FILES = ("C19", "C19b")
+PRELUDE = """From Coq Require Import List String.
+From DDS Require Import Base.Bytes L4_Eval.Store L5_Stores.Dbfs L5_Stores.DbfsHist.
+Import ListNotations.
+Definition S0 ct := DStore (bs "dbfs:/s/internal") (bs "dbfs:/s/data") ct.
+"""
 EXTRACTED = ("ConstDbfs",)
 ALLOWED_AXIOMS = ()
 
@@ -54,6 +60,145 @@ def run_case(case):
         shutil.rmtree(base, ignore_errors=True)
 
 
+SEGS = ["x", "y", "d", "e", "p.q", "_dds_metax", "r s", "é"]
+KEYS = ["%064x" % (0xabc0 + i) for i in range(6)]
+
+
+def gen_history(rng, ct):
+    """Blobs (write-once contents, now and then an overwrite), multi-path commits sharing keys between paths, commits of keys
+    without a blob (the call raises under 'full'); first segments are never the reserved directory name (finding F35)."""
+    paths = []
+    for _ in range(rng.randint(2, 6)):
+        paths.append("/" + "/".join(rng.choice(SEGS) for _ in range(rng.randint(1, 3))))
+    paths = sorted(set(paths))
+    content = {}
+    ops = []
+    have = []
+    for _ in range(rng.randint(3, 10)):
+        r = rng.random()
+        if r < 0.35 or not have:
+            k = rng.choice(KEYS)
+            if k not in content or rng.random() < 0.1:
+                content[k] = ("content-é-%d" % rng.randrange(1000)).encode("utf-8").hex()
+            ops.append(["blob", k, content[k]])
+            if k not in have:
+                have.append(k)
+        else:
+            n = rng.randint(1, min(4, len(paths)))
+            ps = rng.sample(paths, n)
+            pool = have if rng.random() < 0.9 else KEYS
+            ops.append(["sync", [[p, rng.choice(pool)] for p in ps]])
+    return {"commit_type": ct, "hist": ops, "paths": paths}
+
+
+def coq_history(h):
+    ctc = {"FULL": "CFull", "LINK_ONLY": "CLink", "NO_COMMIT": "CNone"}[expected_mode(h["commit_type"])]
+    ops = []
+    for op in h["hist"]:
+        if op[0] == "blob":
+            ops.append(f'DBlob {C.hexs(op[1])} (hx "{op[2]}")')
+        else:
+            items = "; ".join("([" + "; ".join(C.hexs(seg) for seg in p.strip("/").split("/")) + f"], {C.hexs(k)})" for p, k in op[1])
+            ops.append(f"DSync [{items}]")
+    return f"run_show (S0 {ctc}) [" + "; ".join(ops) + "]"
+
+
+def check_histories(rep, rng, n):
+    hs = [gen_history(rng, rng.choice(["full", "links_only", "none"])) for _ in range(n)]
+    # targeted: a path whose record is up to date followed, in one call, by a new path committed to the same key
+    k0, k1 = KEYS[0], KEYS[1]
+    c0, c1 = b"zero".hex(), b"one".hex()
+    for ct in ("full", "links_only"):
+        hs.append({"commit_type": ct, "paths": ["/out/report", "/latest/report", "/z"],
+                   "hist": [["blob", k0, c0], ["sync", [["/out/report", k0]]], ["sync", [["/out/report", k0], ["/latest/report", k0]]],
+                            ["blob", k1, c1], ["sync", [["/z", k1], ["/out/report", k1], ["/latest/report", k0]]]]})
+
+    def one(h):
+        base = tempfile.mkdtemp(prefix="c19h_", dir=C.scratch_dir())
+        try:
+            open(os.path.join(base, "dbfsmod.py"), "w").write(MOD)
+            return C.run_driver("drive_dbfs.py", {"base": base, "commit_type": h["commit_type"], "steps": [{"hist": h["hist"], "fetch": h["paths"]}]})
+        except Exception as e:  # noqa
+            return {"error": str(e)[-400:]}
+        finally:
+            shutil.rmtree(base, ignore_errors=True)
+    with cf.ThreadPoolExecutor(max_workers=C.NPROC) as ex:
+        res = list(ex.map(one, hs))
+    model = C.coq_eval_strings(PRELUDE, [coq_history(h) for h in hs], label="c19h")
+    n_multi = n_raise = 0
+    for h, r, m in zip(hs, res, model):
+        rep.case("history:" + json.dumps(h)[:400], nontrivial=any(op[0] == "sync" and len(op[1]) > 1 for op in h["hist"]))
+        if isinstance(r, dict):
+            rep.violation("harness-error:c19h", r["error"][-300:], {"history": h}, no_input=True)
+            continue
+        o = r[1]
+        n_multi += sum(1 for op in h["hist"] if op[0] == "sync" and len(op[1]) > 1)
+        n_raise += o["oks"].count("0")
+        moks, _, mfs = m.partition("|")
+        mfiles = dict(e.split("=") for e in mfs.split(";") if e)
+        ifiles = {k.encode("utf-8").hex(): v for k, v in o["files"].items()}
+        if moks != o["oks"]:
+            rep.violation("model-mismatch:dbfs-call-outcomes", f"history under {h['commit_type']}: calls completed {o['oks']} (1 = returned, 0 = raised), model {moks}",
+                          {"history": h, "impl": o["oks"], "model": moks})
+        if mfiles != ifiles:
+            diff = sorted(set(mfiles.items()) ^ set(ifiles.items()))[:3]
+            rep.violation("model-mismatch:dbfs-files", f"history under {h['commit_type']}: the file system differs from the model at "
+                          f"{[bytes.fromhex(k).decode('utf-8', 'replace') for k, _ in diff]}", {"history": h, "impl": o["files"], "model": mfiles})
+        # the property itself, on histories where every call completed: dictionary semantics, copies, nothing else
+        if "0" in o["oks"]:
+            continue
+        mode = expected_mode(h["commit_type"])
+        want, blobs = {}, {}
+        for op in h["hist"]:
+            if op[0] == "blob":
+                blobs[op[1]] = op[2]
+            else:
+                for p, k in op[1]:
+                    want[p] = (k, blobs.get(k))
+        for p in h["paths"]:
+            got = o["fetched"].get(p)
+            rec, obj = "dbfs:/s/data/_dds_meta" + p, "dbfs:/s/data" + p
+            if mode == "NO_COMMIT" or p not in want:
+                if not str(got).startswith("!") or rec in o["files"] or obj in o["files"]:
+                    rep.violation("history:uncommitted-path-visible", f"{p} was never committed under {mode} but is readable / has files", {"history": h, "path": p, "out": o})
+                continue
+            k, content = want[p]
+            if got != k:
+                rep.violation("history:record-missing-or-stale:" + mode, f"after the history {p} should be committed to {k[-4:]}, fetch_paths gives {str(got)[-12:]}",
+                              {"history": h, "path": p, "out": o})
+            if mode == "FULL" and o["files"].get(obj) != content:
+                rep.violation("history:full-copy-missing-or-stale", f"no byte-identical copy of the result at {obj}", {"history": h, "path": p, "out": o})
+            if mode == "LINK_ONLY" and obj in o["files"]:
+                rep.violation("history:links-only-copies-data", f"links-only commit wrote {obj}", {"history": h, "path": p, "out": o})
+    return {"histories": len(hs), "multi_path_commits": n_multi, "calls_that_raised": n_raise}
+
+
+def check_findings(rep):
+    """The two hypotheses the history proofs need and the code does not enforce (theorems C19b_*_refuted), on the real store."""
+    k0, k1 = KEYS[0], KEYS[1]
+    c0, c1 = b"zero".hex(), b"one".hex()
+    base = tempfile.mkdtemp(prefix="c19f_", dir=C.scratch_dir())
+    try:
+        open(os.path.join(base, "dbfsmod.py"), "w").write(MOD)
+        # F35: a path under the reserved directory name, commit type full
+        h = [["blob", k0, c0], ["blob", k1, c1], ["sync", [["/x", k0]]], ["sync", [["/_dds_meta/x", k1]]]]
+        o = C.run_driver("drive_dbfs.py", {"base": base, "commit_type": "full", "steps": [{"hist": h, "fetch": ["/x", "/_dds_meta/x"]}]})[1]
+        rep.case("reserved-directory-as-first-segment")
+        if o["fetched"].get("/x") != k0:
+            rep.violation("reserved-directory:record-destroyed", f"full commit of /_dds_meta/x after /x: fetch_paths(/x) gives {o['fetched'].get('/x')}",
+                          {"history": {"commit_type": "full", "hist": h, "paths": ["/x", "/_dds_meta/x"]}})
+        # F36: links only, then the same directories with full
+        h1 = [["blob", k0, c0], ["sync", [["/x", k0]]]]
+        h2 = [["sync", [["/x", k0]]]]
+        o = C.run_driver("drive_dbfs.py", {"base": base, "commit_type": "links_only", "steps": [{"hist": h1, "fetch": []}, {"set_commit_type": "full"}, {"hist": h2, "fetch": ["/x"]}]})[3]
+        rep.case("links-only-then-full")
+        if o["files"].get("dbfs:/s/data/x") != c0:
+            rep.violation("links-then-full:no-copy", "a path committed under links-only and committed again, unchanged, under full has no copy in the data directory",
+                          {"steps": [{"hist": h1}, {"set_commit_type": "full"}, {"hist": h2}], "files": o["files"]})
+    finally:
+        shutil.rmtree(base, ignore_errors=True)
+
+
 def expected_mode(ct):
     n = (ct or "full").lower()
     return {"full": "FULL", "links_only": "LINK_ONLY", "link_only": "LINK_ONLY", "none": "NO_COMMIT", "no_commit": "NO_COMMIT"}[n]
@@ -65,7 +210,9 @@ def run(rep, tier, seed, proof_ok):
                 "operation sequences (keep of str / bytes / None / object results at paths with 1..3 segments, re-keep with changed "
                 "code, re-keep with the code reverted, load) - checks: keep returns the plain value; 'full' leaves a byte-identical copy of each result plus a redirect "
                 "record, 'links only' only the record, 'none' nothing; load works iff the record exists; and blobs whose metadata names "
-                "a legacy or current codec reference decode with the codec of that kind, also when a path is committed to them under each commit type; distinct = distinct case")
+                "a legacy or current codec reference decode with the codec of that kind, also when a path is committed to them under each commit type; "
+                "+ store-level histories (blobs, sync_paths calls with 1..4 paths sharing keys, keys without blob) compared file for file and call "
+                "outcome for call outcome with the Coq model drun, and against the dictionary semantics; distinct = distinct case")
     cases = []
     kinds = ["str", "bytes", "none", "obj"]
     for ct in DOCUMENTED + ENUM_NAMES:
@@ -165,11 +312,21 @@ def run(rep, tier, seed, proof_ok):
                     rep.violation("full-copy-not-identical", f"the copy at {obj} is not byte-identical to the result", replay)
             if mode == "LINK_ONLY" and obj in listing:
                 rep.violation("links-only-copies-data", f"links-only commit wrote the data file {obj}", replay)
-    rep.extra["input_distribution"] = {"cases": len(cases), "commit_types": [str(x) for x in DOCUMENTED + ENUM_NAMES], "legacy_references": [x[0] for x in LEGACY]}
+    check_findings(rep)
+    hd = check_histories(rep, rng, 40 if tier == "quick" and proof_ok else 600)
+    rep.extra["input_distribution"] = {"store_level_histories": hd, "cases": len(cases), "commit_types": [str(x) for x in DOCUMENTED + ENUM_NAMES], "legacy_references": [x[0] for x in LEGACY]}
     rep.sample({"commit_type": cases[0]["commit_type"], "plan": cases[0]["plan"]})
 
 
 def replay(path):
     r = json.load(open(path))["replay"]
+    if "history" in r:
+        h = r["history"]
+        base = tempfile.mkdtemp(prefix="c19h_", dir=C.scratch_dir())
+        open(os.path.join(base, "dbfsmod.py"), "w").write(MOD)
+        print(json.dumps(C.run_driver("drive_dbfs.py", {"base": base, "commit_type": h["commit_type"], "steps": [{"hist": h["hist"], "fetch": h["paths"]}]}), indent=1)[:3000])
+        print("model:", C.coq_eval_strings(PRELUDE, [coq_history(h)], label="c19r")[0][:1500])
+        shutil.rmtree(base, ignore_errors=True)
+        return 1
     print(json.dumps(run_case(r["case"]).get("out"), indent=1)[:3000])
     return 1
